@@ -187,7 +187,37 @@ func (u *Unit) intrinsic(fr *Frame, st *State, fn *ssa.Function, args []Val, whe
 		u.assume(TTrue, Eq(App(SInt, "ErrMsg", r), u.termOf(args[0])))
 		return &Scalar{T: r, Typ: sig.Results().At(0).Type()}
 	case "fmt.Sprintf":
-		return u.freshVal(types.Typ[types.String], "sprintf", st.pc)
+		// the result includes the text of every string and error argument (whatever the verb): enough to follow
+		// the catalogue patterns through the library's own error messages
+		r := u.fresh(SInt, "sprintf")
+		if len(args) > 1 {
+			if sl, ok := args[1].(*SliceV); ok && sl.Cell != nil {
+				for i := 0; i < sl.N; i++ {
+					av := u.loadCell(st, sl.Cell, []string{fmt.Sprint(i)}, types.NewInterfaceType(nil, nil))
+					as, ok := av.(*Scalar)
+					if !ok {
+						continue
+					}
+					switch inner := as.Aux.(type) {
+					case *Scalar:
+						if inner.Typ != nil && isString(inner.Typ) {
+							u.strIncludes(st.pc, r, inner.T)
+							continue
+						}
+						if inner.Typ != nil && typeString(inner.Typ) == "error" {
+							u.strIncludes(st.pc, r, App(SInt, "ErrMsg", inner.T))
+							continue
+						}
+					case nil:
+						// an interface value passed on as it is: an error, most likely
+						if as.Typ != nil && typeString(as.Typ) == "error" {
+							u.strIncludes(st.pc, r, App(SInt, "ErrMsg", as.T))
+						}
+					}
+				}
+			}
+		}
+		return &Scalar{T: r, Typ: types.Typ[types.String]}
 	case "errors.Is":
 		a, b := u.termOf(args[0]), u.termOf(args[1])
 		r := App(SBool, "ErrIs", a, b)
@@ -701,4 +731,23 @@ func (u *Unit) intrinsicInvoke(fr *Frame, st *State, full string, recv Val, args
 		return nil, true
 	}
 	return nil, false
+}
+
+
+// strIncludes: the string whole contains the string part, as far as the catalogue patterns can tell: every pattern
+// found in part (lower-cased or not) is found in whole.
+func (u *Unit) strIncludes(pc Term, whole, part Term) {
+	u.assume(pc, u.includesTerm(whole, part))
+}
+
+func (u *Unit) includesTerm(whole, part Term) Term {
+	// (only pattern-wise: "whole contains part" itself would need transitivity of containment to be useful)
+	var cs []Term
+	lw, lp := App(SInt, "StrLower", whole), App(SInt, "StrLower", part)
+	for _, p := range u.eng.cataloguePatterns {
+		pt := u.eng.strID(p)
+		cs = append(cs, Implies(App(SBool, "StrContains", lp, pt), App(SBool, "StrContains", lw, pt)))
+		cs = append(cs, Implies(App(SBool, "StrContains", part, pt), App(SBool, "StrContains", whole, pt)))
+	}
+	return And(cs...)
 }
